@@ -110,6 +110,12 @@ def rule_rx_newline(cx, rep, port):
                 r = _regex_value(c.args[0], consts)
                 if r:
                     found = (r[0], r[1], c)
+    if port == 'js':
+        fd = p.func('csv_utils', 'split_lines')
+        for r in walk_no_nested(fd):
+            if isinstance(r, ast.Return) and isinstance(r.value, ast.Call) and isinstance(r.value.func, ast.Attribute) and r.value.func.attr == 'split' and r.value.args and isinstance(r.value.args[0], ast.Constant):
+                rep.violated('newline split path', r, 'on some path the text is split on the constant {!r} only: CR and CRLF line breaks are then not recognised, and whether that path is taken depends on where the chunk starts'.format(r.value.args[0].value))
+                return
     if not found:
         raise Undecided('newline regex not found', (p.files['csv_utils'], 0))
     pat, flags, node = found
@@ -171,6 +177,16 @@ def rule_rx_ws(cx, rep, port):
             r = _regex_value(c, consts)
             if r:
                 pats.append((r[0], c))
+    plain = [c for c in walk_no_nested(fd) if isinstance(c, ast.Call) and isinstance(c.func, ast.Attribute) and c.func.attr == 'split' and (not c.args or (isinstance(c.args[0], ast.Constant) and c.args[0].value is None))]
+    if plain:
+        rep.violated('whitespace split `{}`'.format(node_text(plain[0])), plain[0], 'fields are produced by `{}`, which splits on every kind of whitespace (TAB, NBSP, ...) instead of runs of the space character only'.format(node_text(plain[0])))
+        return
+    if len(pats) < 2:
+        # regexes may live at module level
+        consts_m = _module_regexes(cx, port)
+        used = [n.id for n in ast.walk(fd) if isinstance(n, ast.Name) and n.id in consts_m]
+        for u in used:
+            pats.append((consts_m[u][0], consts_m[u][2]))
     rep.require_count('whitespace regexes', len(pats), 2, fd)
     refs = {'[^ ]+': 'maximal runs of non-space characters', ' *[^ ]+ *': 'runs with their surrounding spaces'}
     for pat, node in pats:
